@@ -199,6 +199,11 @@ def check_instance(name, W, H, rows, bad: Bad, stats):
                   if np.iinfo(t).max >= mx)
     for src_name, src in (("narrow array", np.array(rows, narrow)),
                           ("int64 array", np.array(rows, np.int64)),
+                          ("Fortran-ordered int64 array",
+                           np.asfortranarray(np.array(rows, np.int64))),
+                          ("transposed view of a (3, n) array",
+                           np.ascontiguousarray(
+                               np.array(rows, np.int64).T).T),
                           ("the instance itself", inst)):
         try:
             alt = Instance(name, W, H, src)
@@ -1844,7 +1849,14 @@ def run(ctx: Ctx) -> None:
                      part_packings, part_tables, part_logs):
             if only and part.__name__[5:] not in only.split(","):
                 continue
-            t, d = part(ctx, found)
+            try:
+                t, d = part(ctx, found)
+            except Exception:
+                # report what the finished parts established (the core
+                # then notes that the exploration stopped early)
+                if found:
+                    report_all(ctx, found)
+                raise
             total += t
             distinct += d
             ctx.log(f"{part.__name__}: {t} reader executions so far "
